@@ -171,3 +171,42 @@ fn c30_allocate_str_fails_cleanly() {
     assert!(unchanged(&heap, &s));
     std::mem::forget(heap);
 }
+
+// ---- the fault model itself: InnerHeap::grow against the allocator's failure contract ----
+// realloc/alloc returning null leave the old block valid and untouched (std::alloc contract);
+// grow must then report failure and keep ptr, byte_len and byte_cap (S3 is exactly this contract,
+// so every *_fails_cleanly harness above rests on this one).
+pub(super) unsafe fn realloc_null(_p: *mut u8, _l: std::alloc::Layout, _n: usize) -> *mut u8 {
+    std::ptr::null_mut()
+}
+pub(super) unsafe fn alloc_null(_l: std::alloc::Layout) -> *mut u8 {
+    std::ptr::null_mut()
+}
+
+#[kani::proof]
+#[kani::unwind(10)]
+#[kani::stub(std::alloc::realloc, realloc_null)]
+fn c30_grow_keeps_heap_when_realloc_fails() {
+    let len: usize = kani::any();
+    kani::assume(len <= CAP);
+    let mut heap = mk_heap(CAP, len);
+    let s = snap(&heap);
+    let ok = unsafe { heap.inner.grow() };
+    assert!(!ok);
+    assert!(unchanged(&heap, &s));
+    assert!(heap_inv(&heap));
+    std::mem::forget(heap);
+}
+
+#[kani::proof]
+#[kani::unwind(10)]
+fn c30_grow_doubles_when_realloc_succeeds() {
+    let len: usize = kani::any();
+    kani::assume(len <= CAP);
+    let mut heap = mk_heap(CAP, len);
+    let (l, c) = (heap.inner.byte_len, heap.inner.byte_cap);
+    let ok = unsafe { heap.inner.grow() };
+    assert!(ok);
+    assert!(heap.inner.byte_len == l && heap.inner.byte_cap == 2 * c && !heap.inner.ptr.is_null());
+    std::mem::forget(heap);
+}
